@@ -169,8 +169,8 @@ def _interval(ctx) -> None:
     ctx.ob("STATE-COMPLETE", "Interval.__new__/signature", params == ["start", "end", "absolute"], f"{params}", m.rel)
     # swap in __init__ that _getstate undoes
     init = m.func("Interval.__init__")
-    ifs = [n for n in core.walk_fn(init) if isinstance(n, ast.If) and nun(n.test) == "start > end"]
-    ok = len(ifs) == 1 and nun(ifs[0]) == ("if start > end:\n    self._invert = True\n    if absolute:\n        end, start = (start, end)\n"
+    ifs = [n for n in core.walk_fn(init) if isinstance(n, ast.If) and nun(n.test) in ("start > end", "_is_after(start, end)")]
+    ok = len(ifs) == 1 and nun(ifs[0]) == (f"if {nun(ifs[0].test)}:\n    self._invert = True\n    if absolute:\n        end, start = (start, end)\n"
                                            "        _end, _start = (_start, _end)")
     ctx.ob("STATE-COMPLETE", "Interval.__init__/swap", ok, "the swap recorded by _invert/_absolute is the one _getstate undoes", m.loc(init))
     # deepcopy
